@@ -16,7 +16,7 @@ sys.path.insert(0, os.path.dirname(os.path.dirname(__file__)))
 import std_specs as S
 
 PROPERTIES = ["C08"]
-MIN_VERIFIED = 4
+MIN_VERIFIED = 16
 F = 'src/operator/join/local_hash.rs'
 FJ = 'src/operator/join/mod.rs'
 ASSUMPTIONS = [
@@ -224,6 +224,144 @@ SE_INNER = r"""
                         decreases __r@.len(),
 """
 
+HISTORY = r'''
+use vstd::multiset::*;
+enum Ev<K, A, B> { L(K, A), R(K, B), LEnd, REnd }
+struct JS<K, A, B> { ld: Map<K, Seq<A>>, rd: Map<K, Seq<B>>, lended: bool, rended: bool }
+
+// pairs of a with every element of rs / of every element of ls with b
+spec fn row<A, B>(a: A, rs: Seq<B>) -> Multiset<(A, B)> decreases rs.len() {
+    if rs.len() == 0 { Multiset::empty() } else { row(a, rs.drop_last()).insert((a, rs.last())) }
+}
+spec fn col<A, B>(ls: Seq<A>, b: B) -> Multiset<(A, B)> decreases ls.len() {
+    if ls.len() == 0 { Multiset::empty() } else { col(ls.drop_last(), b).insert((ls.last(), b)) }
+}
+// the relational join of two sequences with equal keys: every (a, b) once
+spec fn cross<A, B>(ls: Seq<A>, rs: Seq<B>) -> Multiset<(A, B)> decreases ls.len() {
+    if ls.len() == 0 { Multiset::empty() } else { cross(ls.drop_last(), rs).add(row(ls.last(), rs)) }
+}
+proof fn lemma_cross_push_left<A, B>(ls: Seq<A>, a: A, rs: Seq<B>)
+    ensures cross(ls.push(a), rs) =~= cross(ls, rs).add(row(a, rs))
+{ assert(ls.push(a).drop_last() =~= ls); }
+proof fn lemma_row_push<A, B>(a: A, rs: Seq<B>, b: B)
+    ensures row(a, rs.push(b)) =~= row(a, rs).insert((a, b))
+{ assert(rs.push(b).drop_last() =~= rs); }
+proof fn lemma_cross_push_right<A, B>(ls: Seq<A>, rs: Seq<B>, b: B)
+    ensures cross(ls, rs.push(b)) =~= cross(ls, rs).add(col(ls, b))
+    decreases ls.len()
+{
+    if ls.len() > 0 {
+        lemma_cross_push_right(ls.drop_last(), rs, b);
+        lemma_row_push(ls.last(), rs, b);
+    }
+}
+proof fn lemma_cross_empty_right<A, B>(ls: Seq<A>)
+    ensures cross(ls, Seq::<B>::empty()) =~= Multiset::<(A, B)>::empty()
+    decreases ls.len()
+{ if ls.len() > 0 { lemma_cross_empty_right::<A, B>(ls.drop_last()); } }
+
+// ---- the abstract machine of the symmetric hash join (fields that matter for the matched pairs)
+spec fn js0<K, A, B>() -> JS<K, A, B> { JS { ld: Map::empty(), rd: Map::empty(), lended: false, rended: false } }
+spec fn js_step<K, A, B>(s: JS<K, A, B>, e: Ev<K, A, B>) -> JS<K, A, B> {
+    match e {
+        Ev::L(k, a) => JS { ld: if !s.rended { s.ld.insert(k, at(s.ld, k).push(a)) } else { s.ld }, ..s },
+        Ev::R(k, b) => JS { rd: if !s.lended { s.rd.insert(k, at(s.rd, k).push(b)) } else { s.rd }, ..s },
+        Ev::LEnd => JS { rd: Map::empty(), lended: true, ..s },
+        Ev::REnd => JS { ld: Map::empty(), rended: true, ..s },
+    }
+}
+// matched pairs emitted under key k when e arrives in state s
+spec fn js_out<K, A, B>(s: JS<K, A, B>, e: Ev<K, A, B>, k: K) -> Multiset<(A, B)> {
+    match e {
+        Ev::L(k2, a) => if k2 == k { row(a, at(s.rd, k)) } else { Multiset::empty() },
+        Ev::R(k2, b) => if k2 == k { col(at(s.ld, k), b) } else { Multiset::empty() },
+        _ => Multiset::empty(),
+    }
+}
+spec fn state<K, A, B>(evs: Seq<Ev<K, A, B>>) -> JS<K, A, B> decreases evs.len() {
+    if evs.len() == 0 { js0() } else { js_step(state(evs.drop_last()), evs.last()) }
+}
+spec fn pairs<K, A, B>(evs: Seq<Ev<K, A, B>>, k: K) -> Multiset<(A, B)> decreases evs.len() {
+    if evs.len() == 0 { Multiset::empty() } else { pairs(evs.drop_last(), k).add(js_out(state(evs.drop_last()), evs.last(), k)) }
+}
+spec fn lefts<K, A, B>(evs: Seq<Ev<K, A, B>>, k: K) -> Seq<A> decreases evs.len() {
+    if evs.len() == 0 { Seq::empty() } else {
+        let p = lefts(evs.drop_last(), k);
+        match evs.last() { Ev::L(k2, a) => if k2 == k { p.push(a) } else { p }, _ => p }
+    }
+}
+spec fn rights<K, A, B>(evs: Seq<Ev<K, A, B>>, k: K) -> Seq<B> decreases evs.len() {
+    if evs.len() == 0 { Seq::empty() } else {
+        let p = rights(evs.drop_last(), k);
+        match evs.last() { Ev::R(k2, b) => if k2 == k { p.push(b) } else { p }, _ => p }
+    }
+}
+// a side delivers nothing after its end marker, and ends once (what the two-input receiver guarantees per iteration)
+spec fn valid<K, A, B>(evs: Seq<Ev<K, A, B>>) -> bool decreases evs.len() {
+    if evs.len() == 0 { true } else {
+        let s = state(evs.drop_last());
+        valid(evs.drop_last()) && match evs.last() { Ev::L(_, _) => !s.lended, Ev::R(_, _) => !s.rended, Ev::LEnd => !s.lended, Ev::REnd => !s.rended }
+    }
+}
+// THE history statement: whatever the interleaving of the two sides and of their end markers, the matched pairs
+// emitted under every key are exactly the relational join of what arrived (each pair once)
+proof fn lemma_inner_history<K, A, B>(evs: Seq<Ev<K, A, B>>, k: K)
+    requires valid(evs)
+    ensures
+        pairs(evs, k) =~= cross(lefts(evs, k), rights(evs, k)),                                                          // #obl:history.matched_pairs_are_exactly_the_relational_join
+        !state(evs).rended ==> at(state(evs).ld, k) == lefts(evs, k),
+        state(evs).rended ==> at(state(evs).ld, k) =~= Seq::<A>::empty(),
+        !state(evs).lended ==> at(state(evs).rd, k) == rights(evs, k),
+        state(evs).lended ==> at(state(evs).rd, k) =~= Seq::<B>::empty(),
+    decreases evs.len()
+{
+    if evs.len() > 0 {
+        let p = evs.drop_last();
+        lemma_inner_history(p, k);
+        let s = state(p);
+        match evs.last() {
+            Ev::L(k2, a) => { if k2 == k { lemma_cross_push_left(lefts(p, k), a, rights(p, k)); } }
+            Ev::R(k2, b) => { if k2 == k { lemma_cross_push_right(lefts(p, k), rights(p, k), b); } }
+            Ev::LEnd => {}
+            Ev::REnd => {}
+        }
+    } else {
+        lemma_cross_empty_right::<A, B>(Seq::<A>::empty());
+    }
+}
+
+// ---- link between the contracts of add_item and the abstract machine: the tuples add_item appends when the element
+// has stored matches (contract clause add_item.pairs_with_every_stored_match_once, with the pair constructors that
+// JoinLocalHash::next passes: |x, y| (x, y) for a left element, |x, y| (y, x) for a right one) are, as a multiset of
+// matched pairs, exactly js_out
+spec fn matched<A, B>(t: Seq<(Option<A>, Option<B>)>) -> Multiset<(A, B)> decreases t.len() {
+    if t.len() == 0 { Multiset::empty() } else {
+        let p = matched(t.drop_last());
+        match t.last() { (Some(a), Some(b)) => p.insert((a, b)), _ => p }
+    }
+}
+proof fn lemma_left_arrival_refines<A, B>(a: A, stored: Seq<B>, app: Seq<(Option<A>, Option<B>)>)
+    requires app.len() == stored.len(), forall|i: int| 0 <= i < app.len() ==> #[trigger] app[i] == (Some(a), Some(stored[i])),
+    ensures matched(app) =~= row(a, stored),                                                                              // #obl:history.left_arrival_emits_js_out
+    decreases app.len()
+{
+    if app.len() > 0 {
+        lemma_left_arrival_refines(a, stored.drop_last(), app.drop_last());
+        assert(app.last() == (Some(a), Some(stored.last())));
+    }
+}
+proof fn lemma_right_arrival_refines<A, B>(b: B, stored: Seq<A>, app: Seq<(Option<A>, Option<B>)>)
+    requires app.len() == stored.len(), forall|i: int| 0 <= i < app.len() ==> #[trigger] app[i] == (Some(stored[i]), Some(b)),
+    ensures matched(app) =~= col(stored, b),                                                                              // #obl:history.right_arrival_emits_js_out
+    decreases app.len()
+{
+    if app.len() > 0 {
+        lemma_right_arrival_refines(b, stored.drop_last(), app.drop_last());
+        assert(app.last() == (Some(stored.last()), Some(b)));
+    }
+}
+'''
+
 
 def build(x):
     pieces = [S.CLONE_IS_EQ, S.RUST_PANIC, PRELUDE]
@@ -291,5 +429,5 @@ def build(x):
             }""")
     pieces += ["struct JoinLocalHash<Key, Out1, Out2> { _p: core::marker::PhantomData<(Key, Out1, Out2)> }",
                SIDE_ENDED_DEFS,
-               "impl<Key: DataKey, Out1: ExchangeData, Out2: ExchangeData> JoinLocalHash<Key, Out1, Out2> {", ai, se, "}"]
+               "impl<Key: DataKey, Out1: ExchangeData, Out2: ExchangeData> JoinLocalHash<Key, Out1, Out2> {", ai, se, "}", HISTORY]
     return pieces
